@@ -1308,7 +1308,11 @@ func (ex *Exec) step(st *State) []*State {
 		v := ex.get(st, fr, x.X)
 		switch under(x.X.Type()).(type) {
 		case *types.Pointer, *types.Interface, *types.Signature, *types.Map, *types.Chan:
-			fr.vals[x] = ex.term(st, v)
+			tv := ex.term(st, v)
+			if pv, ok := ex.promotedView(st, tv, x.X.Type(), x.Type()); ok {
+				tv = pv
+			}
+			fr.vals[x] = tv
 		default:
 			// boxed value
 			tv := ex.term(st, v)
@@ -1765,6 +1769,6 @@ func (ex *Exec) ret(st *State, fr *Frame, x *ssa.Return) {
 			ex.oblige(st, fnKey, "ensures:"+labelOr(e, i), clauseTags(e, ct), ev.Bool(e.E), where, e.Src)
 		}
 	}
-	ex.cover(st, fnKey, fmt.Sprintf("cover:return@%d", fr.info.ord[x]), ex.funcTags(ct), where)
+	ex.cover(st, fnKey, "cover:return", ex.funcTags(ct), where)
 	st.done = true
 }
